@@ -7,10 +7,15 @@ import "github.com/f1bonacc1/process-compose/src/types"
 // VerifLoadPipeline runs the post-merge part of Load (mutators, template rendering,
 // executable assignment) on a project value: what a fresh load of that configuration gives.
 func VerifLoadPipeline(p *types.Project) error {
-	apply(p, setDefaultShell, assignDefaultProcessValues, cloneReplicas, copyWorkingDirToProbes)
-	if err := applyWithErr(p, renderTemplates); err != nil {
+	// (the steps of Load, in its order; called one by one so that the loader's own helper for
+	// applying them can change freely)
+	setDefaultShell(p)
+	assignDefaultProcessValues(p)
+	cloneReplicas(p)
+	copyWorkingDirToProbes(p)
+	if err := renderTemplates(p); err != nil {
 		return err
 	}
-	apply(p, assignExecutableAndArgs)
+	assignExecutableAndArgs(p)
 	return nil
 }
